@@ -443,7 +443,7 @@ def check_get_executed(rep, db, f, inst):
             # the pair built directly (`return {a, b}` / std::pair<A, B>(a, b)): the engine models that constructor natively
             from ..engine import Ev as Event
             mp = [Event("CALL", e.b, list(e.c or []), None, loc=e.loc, extra={"argvals": [p.state.mem.get(("fld", e.a, "first")), p.state.mem.get(("fld", e.a, "second"))]}) for e in p.events
-                  if e.kind == "CTOR" and (e.extra or {}).get("native") and str(e.b).startswith("std::pair<") and len(e.c or []) == 2]
+                  if e.kind == "CTOR" and (e.extra or {}).get("native") and (str(e.b).startswith("std::pair<") or str(e.b) == "std::make_pair") and len(e.c or []) == 2]
         if len(mp) != 1:
             rep.violation(rule, site(f), "result pair not built exactly once", f["loc"], inst)
             return
